@@ -1,6 +1,142 @@
 package main
 
-import "fmt"
+import (
+	"bytes"
+	"fmt"
+	"os"
+	"os/exec"
+	"path/filepath"
+	"sort"
+	"strings"
+	"sync"
+)
 
-func selftestDeterminism(args []string) { fmt.Println("not implemented yet") }
-func selftestFidelity()                 { fmt.Println("not implemented yet") }
+var allProps = []string{"C07", "C12", "C13", "C14", "C15", "C18", "C25", "C26", "C27", "C28", "C35", "C36", "C37", "C38", "C40"}
+
+// selftestDeterminism runs, for each property, the same (seed, run) range
+// in separate processes under GOMAXPROCS 1, 4 and 16, with and without the
+// race detector, twice each, and demands byte-identical per-run lines
+// (schedule-trace hash, generated-case hash, step count, tape length,
+// failure class). Exit 0 if identical everywhere, 2 otherwise.
+func selftestDeterminism(args []string) {
+	props := allProps
+	if len(args) > 0 {
+		props = args
+	}
+	runs := envInt("VERIF_SELFTEST_RUNS", 40)
+	bins := map[bool]string{false: ensureBuild(false), true: ensureBuild(true)}
+	type cfg struct {
+		race  bool
+		procs int
+		rep   int
+	}
+	var cfgs []cfg
+	for _, race := range []bool{false, true} {
+		for _, p := range []int{1, 4, 16} {
+			for rep := 0; rep < 2; rep++ {
+				cfgs = append(cfgs, cfg{race, p, rep})
+			}
+		}
+	}
+	bad := 0
+	for _, prop := range props {
+		outs := make([]string, len(cfgs))
+		var wg sync.WaitGroup
+		sem := make(chan struct{}, 12)
+		for i, c := range cfgs {
+			wg.Add(1)
+			go func(i int, c cfg) {
+				defer wg.Done()
+				sem <- struct{}{}
+				defer func() { <-sem }()
+				dir, _ := os.MkdirTemp(scratchBase(), "verif-det-")
+				defer os.RemoveAll(dir)
+				cmd := exec.Command(bins[c.race], "-test.run", "^TestScenario$", "-test.timeout", "0", "-test.count", "1")
+				cmd.Env = append(os.Environ(), "VERIF_PROP="+prop, "VERIF_SEED=7", "VERIF_START=0", "VERIF_STRIDE=1", fmt.Sprintf("VERIF_COUNT=%d", runs),
+					"VERIF_OUT="+dir, "VERIF_HASHES=1", fmt.Sprintf("GOMAXPROCS=%d", c.procs), "GORACE=halt_on_error=1 exitcode=66")
+				cmd.Dir = dir
+				var so, se bytes.Buffer
+				cmd.Stdout, cmd.Stderr = &so, &se
+				err := cmd.Run()
+				var lines []string
+				for _, l := range strings.Split(so.String(), "\n") {
+					if strings.HasPrefix(l, "H ") {
+						lines = append(lines, l)
+					}
+				}
+				if err != nil {
+					lines = append(lines, "PROCESS-ERROR "+err.Error()+" "+tail(se.String(), 300))
+				}
+				outs[i] = strings.Join(lines, "\n")
+			}(i, c)
+		}
+		wg.Wait()
+		ref := outs[0]
+		ok := true
+		for i, o := range outs {
+			if o != ref {
+				ok = false
+				fmt.Printf("selftest-determinism: %s: configuration race=%v GOMAXPROCS=%d rep=%d differs from the reference:\n%s\n", prop, cfgs[i].race, cfgs[i].procs, cfgs[i].rep, firstDiff(ref, o))
+			}
+		}
+		n := len(strings.Split(ref, "\n"))
+		if ok && n == runs && !strings.Contains(ref, "PROCESS-ERROR") {
+			fmt.Printf("selftest-determinism: %s: %d runs x %d configurations identical\n", prop, n, len(cfgs))
+		} else {
+			if ok {
+				fmt.Printf("selftest-determinism: %s: incomplete output (%d lines):\n%s\n", prop, n, tail(ref, 600))
+			}
+			bad++
+		}
+	}
+	if bad > 0 {
+		os.Exit(2)
+	}
+}
+
+func firstDiff(a, b string) string {
+	la, lb := strings.Split(a, "\n"), strings.Split(b, "\n")
+	for i := 0; i < len(la) || i < len(lb); i++ {
+		var x, y string
+		if i < len(la) {
+			x = la[i]
+		}
+		if i < len(lb) {
+			y = lb[i]
+		}
+		if x != y {
+			return fmt.Sprintf("  line %d:\n    ref: %s\n    got: %s", i, x, y)
+		}
+	}
+	return "  (no difference found)"
+}
+
+// selftestFidelity runs the repository's own test suite against the
+// instrumented copy with the simulator inactive: the rewrites must be
+// semantics-preserving. Exit 0 if every package passes, 2 otherwise.
+func selftestFidelity() {
+	ensureBuild(false)
+	key := treeKey()
+	tree := filepath.Join(verifDir, ".cache", key, "tree", "root")
+	// the tests read their data relative to the repository root
+	os.Symlink(filepath.Join(repoDir(), "data"), filepath.Join(tree, "data"))
+	mod := filepath.Join(tree, modRel)
+	env := goEnv()
+	out, _ := run(mod, env, filepath.Join(goBin, "go"), "list", "./...")
+	var pkgs []string
+	for _, p := range strings.Fields(out) {
+		if strings.Contains(p, "/cmd/") || strings.HasSuffix(p, "/gdal") || !strings.HasPrefix(p, "diagonal.works/b6") {
+			continue
+		}
+		pkgs = append(pkgs, p)
+	}
+	sort.Strings(pkgs)
+	args := append([]string{"test", "-vet=off", "-count=1", "-tags", "verif"}, pkgs...)
+	res, err := run(mod, env, filepath.Join(goBin, "go"), args...)
+	fmt.Print(res)
+	if err != nil {
+		fmt.Println("selftest-fidelity: FAILED:", err)
+		os.Exit(2)
+	}
+	fmt.Println("selftest-fidelity: the repository's tests pass on the instrumented copy (simulator inactive)")
+}
